@@ -329,4 +329,68 @@ example : parseECPriv ⟨fun _ _ => true, none, none, none, some [4]⟩ (PubKey.
 /-- padding: 13 bytes are padded with 1,2,3 to 16 -/
 example : genPadding 13 8 = [1, 2, 3] ∧ genPadding 16 16 = [] := by decide
 
+/-! ## the PEM front end (PKCS#1 / PKCS#8 / EC / DSA / legacy encrypted PEM) -/
+
+/-- a block whose Proc-Type mentions ENCRYPTED is PassphraseMissingError for ParseRawPrivateKey, whatever
+    its type and content -/
+theorem pemRawPlain_needPass (i : PemIn) (h1 : i.noBlock = false) (h2 : encryptedBlock i = true) :
+    pemRawPlain i = .needPass := by
+  simp [pemRawPlain, h1, h2]
+
+/-- IncorrectPasswordError only for really encrypted blocks, and only when DecryptPEMBlock says so or the
+    decrypted bytes fail with an asn1.StructuralError -/
+theorem pemRawPass_badPass (i : PemIn) (h : pemRawPass i = .badPass) :
+    i.noBlock = false ∧ encryptedBlock i = true ∧ i.isEncPEM = true ∧ (i.decrypt = 1 ∨ (i.decrypt = 0 ∧ i.der = .structural)) := by
+  unfold pemRawPass at h
+  by_cases h1 : i.noBlock = true
+  · simp [h1] at h
+  · by_cases h2 : (!encryptedBlock i || !i.isEncPEM) = true
+    · simp [h1, h2] at h
+    · have hb : i.noBlock = false := by simpa using h1
+      have he : encryptedBlock i = true ∧ i.isEncPEM = true := by
+        cases hx : encryptedBlock i <;> cases hy : i.isEncPEM <;> simp_all
+      refine ⟨hb, he.1, he.2, ?_⟩
+      by_cases h3 : i.decrypt = 1
+      · exact Or.inl h3
+      · by_cases h4 : i.decrypt = 0
+        · refine Or.inr ⟨h4, ?_⟩
+          simp only [h1, h2, h3, h4, Bool.false_eq_true, ↓reduceIte, ne_eq, not_true_eq_false] at h
+          by_cases t1 : i.ptype = tyRSA ∨ i.ptype = tyEC
+          · simp only [t1, ↓reduceIte] at h
+            cases hd : i.der <;> simp_all
+          · by_cases t2 : i.ptype = tyDSA
+            · simp only [t1, t2, ↓reduceIte] at h
+              have hns : dsaDer i ≠ .structural := by
+                unfold dsaDer
+                cases i.der with
+                | ok k p => by_cases hr : i.dsaRest = true <;> simp [hr]
+                | structural => simp
+                | err => simp
+              cases hd : dsaDer i with
+              | ok k p =>
+                have d : ¬ (tyDSA = tyRSA ∨ tyDSA = tyEC) := by decide
+                rw [hd] at h; simp [d] at h
+              | structural => exact absurd hd hns
+              | err =>
+                have d : ¬ (tyDSA = tyRSA ∨ tyDSA = tyEC) := by decide
+                rw [hd] at h; simp [d] at h
+            · simp [t1, t2] at h
+        · simp [h1, h2, h3, h4] at h
+
+/-- a DSA block with bytes after the SEQUENCE is refused by every entry point -/
+theorem dsa_garbage_refused (i : PemIn) (h : i.dsaRest = true) : ∀ k p, dsaDer i ≠ .ok k p := by
+  intro k p
+  unfold dsaDer
+  cases i.der <;> simp [h]
+
+/-- ParsePrivateKey refuses keys NewSignerFromKey cannot use: P-224 and DSA parameters out of range -/
+theorem signerOf_refuses (p : Bytes) : signerOf (.ok (nm "ecdsa224") p) true = .err ∧ signerOf (.ok (nm "dsa") p) false = .err := by
+  constructor <;> simp [signerOf] <;> decide
+
+example : pemRawPass ⟨false, tyRSA, nm "4,ENCRYPTED", true, 0, .structural, false⟩ = .badPass ∧
+    pemRawPass ⟨false, tyDSA, nm "4,ENCRYPTED", true, 0, .structural, false⟩ = .err ∧
+    pemRawPass ⟨false, tyPKCS8, nm "4,ENCRYPTED", true, 0, .ok (nm "rsa") [], false⟩ = .err ∧
+    pemRawPlain ⟨false, tyPKCS8, [], false, 0, .ok (nm "ed25519") [1], false⟩ = .ok (nm "ed25519") [1] ∧
+    pemRawPlain ⟨false, tyRSA, nm "xENCRYPTEDx", false, 0, .err, false⟩ = .needPass := by decide +kernel
+
 end XC.C39
